@@ -308,8 +308,9 @@ Definition get_row (fuel : nat) (st : istate) : getrow_result :=
         | NYield _ _ _ w l it' c' =>
             inl (with_iter_ctx st it' c' [ {| de_entries := w; de_line := l; de_update_output := true |} ])
         | NDone _ _ _ it' c' => inr (GRNone (with_iter_ctx st it' c' []))
-        | NErr _ _ _ (XFErr x) c' => inr (GRErr x (with_iter_ctx st (i_iter st) c' []))
-        | NErr _ _ _ (XFPanic s) _ => inr (GRPanic s)
+        (* the `?` returns after the statement iterator has been mutated: it' (Stmt.v) *)
+        | NErr _ _ _ (XFErr x) it' c' => inr (GRErr x (with_iter_ctx st it' c' []))
+        | NErr _ _ _ (XFPanic s) _ _ => inr (GRPanic s)
         | NPanic _ _ _ s => inr (GRPanic s)
         | NOOF _ _ _ => inr GROOF
         end
